@@ -110,7 +110,8 @@ class Ctx:
                     self.broke("oracle-error", name, "oracle raised %r on %s" % (e, meta.get("line", "")[:200]))
             d = None
             if model and io is not None:
-                d = core.first_diff(io, mo, getattr(c, "zero_loose", False))
+                io_c = c.canon(io) if hasattr(c, "canon") else io
+                d = core.first_diff(io_c, mo, getattr(c, "zero_loose", False))
             if isinstance(verdict, list) and not verdict:
                 verdict = None
             if verdict is not None:
